@@ -32,7 +32,25 @@ CheckEdit(r) ==
                     ELSE IF ~WellFormed(DS, post) THEN "post-not-wellformed"
                     ELSE "ok"
 
+\* after an operation: every container, list and entry the store holds is found under its
+\* path (an entry under the key its key leaves hold), the deleted node is not
+\* {"chk":"findall","tree":Tree,"present":[{"p":Path,"found":BOOL,"err":..,"key":[..]}],"gone":[...]}
+CheckFindAll(r) ==
+    IF ~WireOK(r.tree) THEN "ok"   \* reported by the edit record of the same step
+    ELSE LET T == TreeOf(r.tree) IN
+         IF \E i \in DOMAIN r.present : r.present[i].err = "panic" THEN "panic"
+         \* (whether a list without entries still "exists" is store specific: DESIGN 4.5)
+         ELSE IF \E i \in DOMAIN r.present : r.present[i].p \in T.cont /\ ~r.present[i].found
+                    /\ ~(r.present[i].p \in DOMAIN T.ord /\ T.ord[r.present[i].p] = << >>)
+              THEN "existing-node-not-found"
+         ELSE IF \E i \in DOMAIN r.present : IsEntry(r.present[i].p) /\ r.present[i].key # KeysOfEntry(r.present[i].p)
+              THEN "entry-found-under-wrong-key"
+         ELSE IF \E i \in DOMAIN r.gone : r.gone[i].found /\ r.gone[i].p \notin T.cont
+              THEN "deleted-node-still-found"
+         ELSE "ok"
+
 Check(r) == CASE r.chk = "edit" -> CheckEdit(r)
+              [] r.chk = "findall" -> CheckFindAll(r)
               [] r.chk = "skip" -> "ok"
               [] OTHER -> "harness-unknown-chk"
 
